@@ -116,6 +116,15 @@ where
         Reveal<MacUpgraded<C, Fp25519>, Output = <RP25519 as Vectorizable<PRF_CHUNK>>::Array>,
     PrfHybridReport<BK, V>: Serializable,
 {
+    if input_rows.is_empty() {
+        // This shard has nothing to evaluate, but other shards may send it reports.
+        return reshard_try_stream(
+            ctx.narrow(&HybridStep::ReshardByPrf),
+            stream::iter(Vec::<Result<PrfHybridReport<BK, V>, Error>>::new()),
+            |ctx, _, report| report.match_key % ctx.shard_count(),
+        )
+        .await;
+    }
     let conv_records =
         TotalRecords::specified(div_round_up(input_rows.len(), Const::<CONV_CHUNK>))?;
     let eval_records = TotalRecords::specified(div_round_up(input_rows.len(), Const::<PRF_CHUNK>))?;
